@@ -91,21 +91,7 @@ def gen(rng, tier, n):
         elif r < 0.48:
             # one declared type several times in one type, through different wrappers, in every order (what is learnt about a type at
             # its first occurrence must not colour the later ones)
-            nm = rng.choice(["Inner", "Inner2", "Deep", "Empty", "MyInt", "MyInts", "Levels", "DescTag", "HoldsPtrs"] + gt.GEN["names"][:8])
-            N = {"k": "named", "name": nm}
-            wraps = [N, {"k": "ptr", "e": N}, {"k": "slice", "e": N}, {"k": "slice", "e": {"k": "ptr", "e": N}}, {"k": "map", "key": "string", "e": N},
-                     {"k": "map", "key": "string", "e": {"k": "ptr", "e": N}}, {"k": "array", "n": 2, "e": N}, {"k": "ptr", "e": {"k": "ptr", "e": N}},
-                     {"k": "struct", "fields": [{"name": "In", "tag": 'json:"in"', "t": N}]}]
-            ws = [rng.choice(wraps) for _ in range(rng.randint(2, 4))]
-            tags = ['json:"%s"', 'json:"%s,omitempty"', "", 'json:"%s,omitzero"']
-            fields = []
-            for i, w in enumerate(ws):
-                tg = rng.choice(tags)
-                fields.append({"name": "F%d" % i, "tag": (tg % ("f%d" % i)) if "%s" in tg else tg, "t": w})
-            t = {"k": "struct", "fields": fields}
-            if rng.random() < 0.3:
-                t = {"k": rng.choice(["slice", "ptr"]), "e": t}
-            used.add(nm)
+            t = gt.repeated_named_case(rng, used, ["Inner", "Inner2", "Deep", "Empty", "MyInt", "MyInts", "Levels", "DescTag", "HoldsPtrs"] + gt.GEN["names"][:8])
         raw.append((t, opts, used, pre))
     # the structure of every type as reflect shows it (input of the model)
     tops = [{"id": i, "op": "typeinfo", "args": {"type": t}} for i, (t, _, _, _) in enumerate(raw)]
